@@ -1,5 +1,5 @@
 import LaytheVerif.Gen.Tokens
-import LaytheVerif.Gen.Limits
+import LaytheVerif.Gen.FrontLimits
 import LaytheVerif.Model.Scanner
 import LaytheVerif.Model.FrontEnd
 import LaytheVerif.Lemmas.ScannerTotal
